@@ -64,6 +64,11 @@ def gate_dominates(b, gates, site_bb):
             return seen
         if site_bb not in reach(sw, set(passes)) and site_bb != sw:
             return True
+        # the gate may sit in a private helper that was spliced in: its failing edge then reaches the site in the plain
+        # CFG through the helper's single return (`Err` travels back and is propagated by the caller's `?`).  Decide
+        # with the variant-aware reachability: without the pass targets, can the site be reached at all?
+        if site_bb not in feasible_reach(b, [0], avoid=set(passes)) and site_bb != sw:
+            return True
     return False
 
 
@@ -300,7 +305,12 @@ def r4(cx):
                 other = (ro if "savepoint_no" in lo.field_names() else lo)
                 cx.check(keep_ne, "retain keeps an entry iff its savepoint differs from the current one", "retain-predicate", cmp_.where(),
                          "the savepoint filter keeps entries whose savepoint_no %s current savepoint" % rel_str(rel))
-                cx.check("savepoints" in other.field_names(), "...compared with Transaction.savepoints", "retain-operand", cmp_.where())
+                src = set(other.field_names())
+                # (the closure may capture a local copy taken before the loop: follow the captured variable into the parent)
+                for nm in other.upvar_names:
+                    for l in b.local_by_name(nm.split("__")[0]):
+                        src |= origin_of_operand(b, ["c", [l]], through_calls=False).field_names()
+                cx.check("savepoints" in src, "...compared with Transaction.savepoints", "retain-operand", cmp_.where())
                 okp = True
     cx.check(okp, "a savepoint comparison exists in the retain predicate", "retain-no-predicate", b.where())
     # empty keys removed
